@@ -89,9 +89,15 @@ func leafOfKind(r *Rng, k string, o genOpts) *D {
 		d.N = int64(r.Intn(2))
 	case "float32", "float64", "NFloat", "SVFloat", "ISafeFloat":
 		d.F = floatValues[r.Intn(len(floatValues))]
+		if (k == "float32" || k == "float64" || k == "NFloat") && r.Chance(1, 5) {
+			d.S = QS([]string{"NaN", "+Inf", "-Inf", "-0", "subnormal"}[r.Intn(5)])
+		}
 	case "complex64", "complex128":
 		d.F = floatValues[r.Intn(len(floatValues))]
 		d.N = int64(r.Intn(5) - 2)
+		if r.Chance(1, 5) {
+			d.S = QS([]string{"NaN", "+Inf", "-Inf", "-0"}[r.Intn(4)])
+		}
 	case "string", "NStr", "bytes", "NBytes", "barr", "ptrStr", "Stringer", "PStringer", "PStringerVal", "Err", "StdErr", "WrapErr", "PErr", "ErrStringer",
 		"GoStringer", "GoStrStringer", "Fmter", "ErrFmter", "SVStr", "SVBytes", "SVStringer", "ISafeString", "ISafeBytes", "RegStr", "SafeMsg":
 		d.S = QS(randPayload(r, o))
@@ -229,7 +235,11 @@ func randMap(r *Rng, depth int, o genOpts) *D {
 			case 1:
 				k = dN("bool", int64(r.Intn(2)))
 			case 2:
-				k = dN("int", int64(r.Intn(5)-2))
+				if r.Bool() {
+					k = dN("int", int64(r.Intn(5)-2))
+				} else {
+					k = dN([]string{"int64", "int", "int8", "uint64"}[r.Intn(4)], []int64{-9223372036854775808, 9223372036854775807, 1, -1, 0, 1 << 62, -(1 << 62)}[r.Intn(7)])
+				}
 			case 3:
 				k = dN("uint8", int64(r.Intn(4)))
 			case 4:
@@ -237,7 +247,12 @@ func randMap(r *Rng, depth int, o genOpts) *D {
 			case 5:
 				k = dS("string", []string{"a", "b", "", "k" + startM}[r.Intn(4)])
 			case 6:
-				k = &D{K: "kstruct", N: int64(r.Intn(3)), S: QS([]string{"x", "y"}[r.Intn(2)])}
+				if r.Bool() {
+					k = &D{K: "kstruct", N: int64(r.Intn(3)), S: QS([]string{"x", "y"}[r.Intn(2)])}
+				} else {
+					// struct key with an interface-typed component (nil or not) and a later component
+					k = &D{K: "kstructI", N: int64(r.Intn(4)), S: QS([]string{"", "", "t"}[r.Intn(3)])}
+				}
 			case 7:
 				k = dN([]string{"karr", "uintptr", "uint", "ptrInt", "NStr", "NInt"}[r.Intn(6)], int64(r.Intn(40)))
 			default:
@@ -534,7 +549,54 @@ func randCall(r *Rng, o genOpts) *Call {
 		for i, n := 0, r.Intn(4); i < n; i++ {
 			c.Args = append(c.Args, randD(r, o.maxDepth, o))
 		}
-	case mode < 27: // raw hostile format
+	case mode < 17: // a format without any directive (constant message), with or without operands
+		var b strings.Builder
+		for i, n := 0, r.Intn(4); i < n; i++ {
+			b.WriteString(strings.ReplaceAll(randLit(r, o), "%%", "pct"))
+			if r.Chance(1, 3) {
+				b.WriteString(strings.ReplaceAll(randPayload(r, o), "%", ""))
+			}
+		}
+		c.Raw = QS(b.String())
+		if c.Raw == "" {
+			c.Raw = QS(startM)
+		}
+		for i, n := 0, r.Intn(3)/2; i < n; i++ {
+			c.Args = append(c.Args, randD(r, 1, o))
+		}
+	case mode < 21: // explicit argument indexes (valid, zero, too large), combined with widths, precisions and stars
+		var b strings.Builder
+		for i, n := 0, 1+r.Intn(4); i < n; i++ {
+			b.WriteString(randLit(r, genOpts{}))
+			k := []string{"0", "1", "1", "2", "2", "3", "9", "00", "-1", "x"}[r.Intn(10)]
+			verb := []string{"v", "d", "s", "x", "X", "q", "T", "G", "c"}[r.Intn(9)]
+			fl := []string{"", "", "+", "-", "#", "0"}[r.Intn(6)]
+			switch r.Intn(7) {
+			case 0:
+				b.WriteString("%" + fl + "[" + k + "]" + verb)
+			case 1:
+				b.WriteString("%" + fl + "[" + k + "]3" + verb) // index then width: bad
+			case 2:
+				b.WriteString("%" + fl + "[" + k + "]*" + verb)
+			case 3:
+				b.WriteString("%" + fl + ".[" + k + "]*" + verb)
+			case 4:
+				b.WriteString("%" + fl + "5.2" + verb) // a plain directive after indexed ones
+			case 5:
+				b.WriteString("%" + fl + "[" + k + "]*.[" + []string{"1", "2", "0"}[r.Intn(3)] + "]*[" + []string{"1", "3"}[r.Intn(2)] + "]" + verb)
+			default:
+				b.WriteString("%" + fl + "3[" + k + "]" + verb)
+			}
+		}
+		c.Raw = QS(b.String())
+		for i, n := 0, 1+r.Intn(3); i < n; i++ {
+			if r.Chance(1, 2) {
+				c.Args = append(c.Args, dN("int", []int64{0, 1, 5, -3, 12}[r.Intn(5)]))
+			} else {
+				c.Args = append(c.Args, randD(r, 1, o))
+			}
+		}
+	case mode < 30: // raw hostile format
 		var b strings.Builder
 		for i, n := 0, 1+r.Intn(8); i < n; i++ {
 			b.WriteString(rawFrags[r.Intn(len(rawFrags))])
